@@ -100,3 +100,30 @@ func (s *Scratch) Build(args ...string) (map[string][]string, string, error) {
 	}
 	return errs, string(out), err
 }
+
+// AddHarness makes the harness module (the reflective driver engine) importable from the scratch module.
+func (s *Scratch) AddHarness(harnessDir string) error {
+	mod, err := os.ReadFile(filepath.Join(s.Dir, "go.mod"))
+	if err != nil {
+		return err
+	}
+	hmod, err := os.ReadFile(filepath.Join(harnessDir, "go.mod"))
+	if err != nil {
+		return err
+	}
+	// the harness's own requirements (e.g. the history checker) must resolve too
+	extra := ""
+	for _, l := range strings.Split(string(hmod), "\n") {
+		t := strings.TrimSpace(l)
+		if strings.HasPrefix(t, "github.com/anishathalye/porcupine ") {
+			extra += "require " + strings.TrimSuffix(t, " // indirect") + "\n"
+		}
+	}
+	text := string(mod) + "\nrequire verifharness v0.0.0\n" + extra + "\nreplace verifharness => " + harnessDir + "\n"
+	if err := os.WriteFile(filepath.Join(s.Dir, "go.mod"), []byte(text), 0o644); err != nil {
+		return err
+	}
+	sum, _ := os.ReadFile(filepath.Join(s.Dir, "go.sum"))
+	hsum, _ := os.ReadFile(filepath.Join(harnessDir, "go.sum"))
+	return os.WriteFile(filepath.Join(s.Dir, "go.sum"), append(append(sum, '\n'), hsum...), 0o644)
+}
